@@ -37,3 +37,28 @@ func VerifC18_type3_key_ids() {
 	}
 	vReach("key-ids")
 }
+
+// a name key with any suite the decoder accepts: the request carries SHA-256 of its serialization
+func VerifC18_type3_name_key_id_any_suite() {
+	vUnwind(40)
+	vUseModels("ecapi")
+	issuer := t3Issuer("a")
+	ser := issuer.NameKey().Marshal()
+	// same public key, arbitrary key id byte, KDF and AEAD identifiers
+	alt := append([]byte{}, ser...)
+	alt[0] = vByte("key_id")
+	alt[36] = byte(vInt("kdf", 1, 3))
+	alt[38] = byte(vInt("aead", 1, 3))
+	nk, err := UnmarshalEncapKey(alt)
+	vAssume(err == nil)
+	vAssert(vBytesEq(nk.Marshal(), alt), "name-key-serialization-is-its-encoding")
+	secret := vBytes("client_secret", 48, 48)
+	vAssume(secret[0] != 0)
+	blind := vBytes("blind", 48, 48)
+	vAssume(blind[0] != 0)
+	st, err := NewRateLimitedClientFromSecret(secret).CreateTokenRequest(vBytesC("challenge", 0, 0), vBytes("nonce", 32, 32), blind, issuer.TokenKeyID(), issuer.TokenKey(), "a", nk)
+	vAssume(err == nil)
+	want := sha256.Sum256(alt)
+	vAssert(vBytesEq(st.Request().NameKeyID, want[:]), "request-carries-sha256-of-serialized-name-key")
+	vReach("any-suite")
+}
